@@ -1978,7 +1978,11 @@ impl<'a> CompilerState<'a> {
                     self.functions.insert(
                         name.clone(),
                         Function {
-                            order: self.functions.len(),
+                            order: self
+                                .functions
+                                .get(&name)
+                                .map(|f| f.order)
+                                .unwrap_or(self.functions.len()),
                             inline,
                             bank,
                             code: None,
@@ -2125,7 +2129,11 @@ impl<'a> CompilerState<'a> {
                         }
                         // Insert it into the global table
                         let var = Variable {
-                            order: self.variables.len(),
+                            order: self
+                                .variables
+                                .get(&longname)
+                                .map(|v| v.order)
+                                .unwrap_or(self.variables.len()),
                             signed,
                             memory,
                             var_const,
